@@ -304,7 +304,13 @@ def check(ctx):
     # resolved") is a liveness property of the COMPOSITION engine + request channel + execution
     # manager + account feed (spec/BarterSystem.tla, weak fairness of manager / answer race / engine
     # loop); the weakened specification without answer fairness must violate it (non-vacuity)
-    ctx.tlc_mc("BarterSystem", "MC_BarterSystem.cfg", timeout=900)
+    # (each exchange has its own channel / manager / client: Routed; links connect and die: ConnMatchesLinks,
+    #  Noticed, Synced).  quick: 2 ids x 1 exchange x 2 requests, 2 ids x 2 exchanges x 1 request, 1 id x 2
+    #  exchanges x 2 requests with both links killed; thorough: 2 ids x 2 exchanges x 2 requests
+    for cfg in ("MC_BarterSystem.cfg", "MC_BarterSystem_two.cfg", "MC_BarterSystem_links.cfg"):
+        ctx.tlc_mc("BarterSystem", cfg, timeout=900, ignore_uncovered=("EngineSendCancel",) if "_two" in cfg else ())
+    if not ctx.quick:
+        ctx.tlc_mc("BarterSystem", "MC_BarterSystem_thorough.cfg", timeout=1800, coverage=False)
     ctx.tlc_expect_violation("BarterSystem", "MC_BarterSystem_unfair.cfg", "Temporal property Resolved was violated")
     composition(ctx)
     # spec -> impl -> spec: every generated batch runs on the real manager, its trace is validated
